@@ -68,6 +68,12 @@ func replayTrace(tr *Trace) error {
 	if _, _, _, ok := scaleParams(tr); ok {
 		return replayScale(tr)
 	}
+	if tr.Params["mode"] == "keylens" {
+		return replayKeyLengths(tr)
+	}
+	if tr.Params["mode"] == "huge" {
+		return replayHuge(tr)
+	}
 	if tr.Params["mode"] == "runeprobes" {
 		return replayRuneProbes(tr)
 	}
